@@ -17,6 +17,14 @@ C = {
     'panic reachability by symbolic execution of rustc MIR of the solver on every accepted template rule and optimiser output (z3), native catch_unwind for optimise(), parser MIR over symbolic token vectors for operand kinds',
     'For every accepted template rule and every optimiser output, z3 decides whether any panic path of the real solver MIR is feasible for any document within the bounds; non-predicate operands must be rejected by the real parser MIR for all token vectors within the bound.',
     MODELS + '; panics inside third-party engines are outside the claim'),
+ 'C04': ('model_checking', '3/C04',
+    'panic reachability by symbolic execution of rustc MIR of into_identifier and the tokeniser (one loop iteration from an arbitrary suffix, plus whole function on short inputs) over symbolic well-formed UTF-8 byte strings; parse() over symbolic token vectors (C05 run); native catch_unwind sweep of YAML shapes (auxiliary, concrete)',
+    'Every path of the textual layers over all strings within the byte bound ends in Return(Ok|Err); each tokeniser iteration makes progress; slicing uses Rust\'s real panic conditions.',
+    'char predicates exact on ASCII / uninterpreted above; parse::<i64> and f64 grammar exact, f64 value uninterpreted; regex validity uninterpreted; serde_yaml not encoded'),
+ 'C05': ('model_checking', '3/C05',
+    'symbolic execution of rustc MIR of the Pratt parser over symbolic token vectors, every accepting path compared node-for-node with an independently written stratified grammar; z3 for binding powers and language inclusion; tokeniser MIR on symbolic words / white space',
+    'All token vectors of length <= L over all 20 token classes: same acceptance (modulo a trailing unclosed parenthesis, counted) and same tree as the reference grammar; binding powers ordered; [a-z]{1,n} words are identifiers; white space produces no token.',
+    'token payloads opaque; derived Clone on symbolic tokens modelled as structural copy'),
  'C06': ('model_checking', '3/C06',
     'symbolic execution of rustc MIR of solve/solve_expression/match_all/match_of with symbolic operand results and thresholds; z3 against the truth tables',
     'Every connective form and arity 1..4 (6 thorough): z3 proves the result term of the real MIR equals the truth table for all operand vectors in {T,F,M}^k and all u64 thresholds, with coverage and vacuity witnesses.',
